@@ -1,8 +1,8 @@
 //! Allocation guard. A corrupt length must not make a decoder request an enormous buffer
 //! (`BytesMut::reserve(len)` with `len` taken from the wire). A real request of that size would
 //! abort the process (`handle_alloc_error`), so the harness installs a global allocator that
-//! *records* every single request above `CAP` in a thread-local and satisfies it with a block of
-//! `CAP` bytes. The engine looks at the thread-local after every call into a decoder and ends the
+//! *records* every single request above `CAP` in a thread-local and satisfies it with a small
+//! block (`FAKE` bytes, or the old size when growing). The engine looks at the thread-local after every call into a decoder and ends the
 //! case at once (nothing writes into the over-promised buffer: decoders only read from `src`), so
 //! the lie is never observable by the subject. Requests above `isize::MAX` never reach the
 //! allocator; they panic with "capacity overflow" and are classified by the engine.
@@ -11,6 +11,9 @@ use std::alloc::{GlobalAlloc, Layout, System};
 use std::cell::Cell;
 
 pub const CAP: usize = 64 << 20;
+/// What a request above `CAP` really gets. The system allocator ignores the size passed to
+/// `dealloc`/`realloc` (`free`/`realloc` of libc), which is what makes the substitution possible.
+const FAKE: usize = 64 << 10;
 
 thread_local! {
     static HUGE: Cell<usize> = const { Cell::new(0) };
@@ -34,7 +37,7 @@ pub fn take_huge() -> usize {
 
 #[inline]
 fn fake(l: Layout) -> Layout {
-    unsafe { Layout::from_size_align_unchecked(CAP, l.align()) }
+    unsafe { Layout::from_size_align_unchecked(FAKE, l.align()) }
 }
 
 unsafe impl GlobalAlloc for Guarded {
@@ -66,7 +69,7 @@ unsafe impl GlobalAlloc for Guarded {
             (false, false) => System.realloc(p, l, new),
             (false, true) => {
                 note(new);
-                System.realloc(p, l, CAP)
+                System.realloc(p, l, FAKE.max(l.size()))
             }
             (true, true) => {
                 note(new);
